@@ -107,7 +107,7 @@ func genC05(g G) *Scenario {
 	opts.MaxBlobs, opts.MaxTrees, opts.MaxCommits, opts.MaxTags, opts.MaxRefs = 5, 5, 4, 2, 4
 	opts.ExtraHeaders = false
 	opts.NameStyle = 0
-	shape := g.PickStr([]string{"huge-blobs", "bomb32", "bomb64", "huge-in-bomb", "sum", "ref-to-huge-blob"}, "shape")
+	shape := g.PickStr([]string{"huge-blobs", "bomb32", "bomb64", "huge-in-bomb", "sum", "ref-to-huge-blob", "linkbomb"}, "shape")
 	if shape != "bomb32" && shape != "bomb64" {
 		opts.HugeSizes = true
 	}
@@ -183,6 +183,34 @@ func genC05(g G) *Scenario {
 			top2 := AddBomb(w, g.Int(1, 5, "d2"), g.Int(1, 5, "b2"), small, "x")
 			addCommit(top2.ID, "bomb2")
 		}
+	case "linkbomb":
+		// a bomb whose leaves hold few files but several symlinks and
+		// submodules: the symlink / submodule counters cross 2^32 while the
+		// file and directory counters of the same checkout stay below 2^31
+		nl, ns := g.Int(0, 6, "leaflinks"), g.Int(0, 6, "leafsubs")
+		if nl+ns == 0 {
+			nl = 5
+		}
+		es := []TreeEntry{{Mode: 0o100644, Name: "f", OID: small.ID}}
+		for i := 0; i < nl; i++ {
+			es = append(es, TreeEntry{Mode: 0o120000, Name: fmt.Sprintf("l%d", i), OID: small.ID})
+		}
+		for i := 0; i < ns; i++ {
+			es = append(es, TreeEntry{Mode: 0o160000, Name: fmt.Sprintf("s%d", i), OID: fakeOID(fmt.Sprint("linkbomb", i))})
+		}
+		SortTreeEntries(es)
+		cur := w.Add(NewObject(KTree, EncodeTree(es)))
+		type bd struct{ b, d int }
+		sh := []bd{{10, 9}, {10, 10}, {4, 15}, {4, 16}, {2, 30}, {2, 31}, {32, 6}}[g.Pick(7, "linkbombshape")]
+		for d := 0; d < sh.d; d++ {
+			var ds []TreeEntry
+			for i := 0; i < sh.b; i++ {
+				ds = append(ds, TreeEntry{Mode: 0o040000, Name: fmt.Sprintf("d%02d", i), OID: cur.ID})
+			}
+			SortTreeEntries(ds)
+			cur = w.Add(NewObject(KTree, EncodeTree(ds)))
+		}
+		addCommit(cur.ID, "linkbomb")
 	case "sum":
 		// many declared sizes whose sum crosses 2^64
 		var es []TreeEntry
